@@ -1229,8 +1229,11 @@ def stress_worker(store, root, idx, seed, nops, npk, quota, conn):
                     rem = []
                     forced = rng.random() < 0.15
                     state["forced"] = forced
+                    allun = rng.random() < 0.3
+                    if quota is None and forced:
+                        allun = False     # --used --all-unused without quota is a TypeError (outside the property text)
                     try:
-                        sz = sh.gc(forced, rng.random() < 0.3, False, rem.append)
+                        sz = sh.gc(forced, allun, False, rem.append)
                     finally:
                         state["forced"] = False
                     log.append(("gc", forced, [os.path.relpath(x, store) for x in rem], sz, t0, time.monotonic_ns(), 0))
@@ -1483,7 +1486,7 @@ def run(ctx):
         ctx.note("phase times: schedules generated at %.0fs" % ctx.elapsed())
         # ---- model side
         bad, log = coq.run_cases(ctx, ["BobV.C15.Model"], "run_case", "(eqb_list N.eqb)", cases, preamble=PRE,
-                                 tag="lts", shard=60)
+                                 tag="lts", shard=24)
         if bad is None:
             ctx.tie_broken("C15 model evaluation failed", log)
         else:
